@@ -58,3 +58,11 @@ claim("C10",
       "PBT with a validity predicate over parsed declarations: Hypothesis-generated programs placing variables in every position class x default string size x per-name size maps x initialize_vars; expected declarations derived from the generated model, identifiers learnt by probing the tool",
       "Generated-input search; decides exactly-once declaration before first use, bound+1 / 11 elements per dimension, no duplicate identifier, and explicit STRING[n] sizes (configured or default) for every string scalar, array and temporary; StringConfigs validation is checked on a table of valid and invalid maps.",
       PARSE_NOTE, "DESIGN.md section 6, C10")
+claim("C13",
+      "PBT with a validity predicate: Hypothesis-generated programs with planted trigger words in literals / DATA / comments x procedure names x string sizes; independent token-level scanner of the bundle and of the current ecb.b09; expected bundle = RUN-closure in the library call graph",
+      "Generated-input search; decides 'exactly the reachable procedures, once each, sorted, program last', 'every RUN resolves inside the bundle or to a system module', 'no placeholder left, every placeholder sized' and 'user literals unchanged' by comparison with the dependency-free conversion.",
+      PARSE_NOTE, "DESIGN.md section 6, C13")
+claim("C14",
+      "PBT with a validity predicate: Hypothesis-generated programs over every RUN-producing construct and operand shape; interfaces parsed from the current ecb.b09; arity and string/numeric/record kind of every RUN argument checked, plus one enumeration of all RUNs inside the library and a field-by-field comparison of the record TYPE lines",
+      "Generated-input search over emitted calls; the library-internal calls and the record types are enumerated completely on every run.",
+      PARSE_NOTE, "DESIGN.md section 6, C14")
